@@ -723,6 +723,15 @@ Definition thread_obs (o : list Z) : list Z :=
         let w := wrun wst0 (thread_events far near) in
         [0; b2z (done_pid w 1); if far =? 0 then 0 else if done_pid w 0 then 1 else 3]
       else [1]
+  | [2; far] =>
+      (* stop request racing with the worker's decision to wait (harness: worker held at the "sched_wait" point while
+         ~scheduler runs): the worker has looked at the heap and is about to block; request_stop must still reach it —
+         ~scheduler returns iff the worker becomes runnable; a far sleep is then cancelled by destruction.
+         (stop-token-aware wait_until, scheduler.h:405/410) *)
+      if (far =? 0) || ((10000 <=? far) && (far <=? 100000)) then
+        let w := wrun wst0 ((if 0 <? far then [WSchedule 0 1 far] else []) ++ [WIter; WStop]) in
+        [0; b2z (runnable w && w_stop w); if far =? 0 then 0 else 2]
+      else [1]
   | _ => [1]
   end.
 
@@ -731,6 +740,15 @@ Definition thread_run (ops : list (list Z)) : list (list Z) := map thread_obs op
 (* property on a trace: the near sleep was woken (not missed); the far sleep was either cancelled by cancel(id)
    or had expired — and it cannot have expired when its time point lies beyond the whole observation window *)
 Definition thread_ok (p : list Z * list Z) : bool :=
+  match fst p with
+  | [2; far] =>
+      (* the destructor returned (no lost wake-up) and a still pending sleep was cancelled, not left hanging *)
+      match thread_obs (fst p), snd p with
+      | [1], [1] => true
+      | [0; _; _], [0; ret; fs] => (ret =? 1) && (fs =? (if far =? 0 then 0 else 2))
+      | _, _ => false
+      end
+  | _ =>
   match thread_obs (fst p), snd p with
   | [1], [1] => true
   | [0; _; _], [0; woke; fs] =>
@@ -741,6 +759,7 @@ Definition thread_ok (p : list Z * list Z) : bool :=
        else if far <? 60 then fs =? 1
        else (fs =? 1) || (fs =? 3))
   | _, _ => false
+  end
   end.
 
 Definition thread_oracle (ops obs : list (list Z)) : bool :=
